@@ -1283,6 +1283,8 @@ class Engine:
                 continue
             if not isinstance(a, Arr):
                 raise ContractError(f'frame parameter {p} of {q} is not an array')
+            if self.prange_ctx is not None:
+                self.prange_ctx.check_callee_frame(self, st, a, fr, env, old_heap, n, q)
             self.havoc_view(st, a, fr, env, old_heap, n)
         res = None
         if cs.result:
@@ -1912,7 +1914,10 @@ class Engine:
         srcs = [norm_src(x, 300) for x in fn.body]
         try:
             i0 = next(i for i, s in enumerate(srcs) if s.startswith(first))
-            i1 = max(i for i, s in enumerate(srcs) if s.startswith(last))
+            if last.startswith('<'):       # exclusive end marker: stop before the first statement starting with it
+                i1 = next(i for i, s in enumerate(srcs) if i > i0 and s.startswith(last[1:])) - 1
+            else:
+                i1 = max(i for i, s in enumerate(srcs) if s.startswith(last))
         except (StopIteration, ValueError):
             raise ContractError(f'{fn.name}: slice markers not found')
         return fn.body[i0:i1 + 1]
